@@ -149,21 +149,28 @@ Record params := mkP {
   p_fb : text * bool;
   p_exc : text * bool;         (* add_exception_view: default context, exception_only *)
   p_default_view_ctx : bool;   (* default_exceptionresponse_view returns its context *)
-  p_perm_checks : bool         (* _call_view(secure=False) checks the predicates of a single secured view *)
+  p_perm_checks : bool;        (* _call_view(secure=False) checks the predicates of a single secured view *)
+  p_nf_fw : list text;         (* predicate arguments add_notfound_view forwards to add_view *)
+  p_fb_fw : list text          (* ... add_forbidden_view *)
 }.
 
 Definition code_params : params :=
   mkP hidden_names set_in_with set_after uses_combined exc_view_name iev_none_raises iev_reraise_catches
       handler_catches handler_reraises_original tween_catches default_excview_contexts
       (nf_context, nf_exception_only) (fb_context, fb_exception_only) (exc_default_context, exc_exception_only)
-      default_view_returns_context permissive_checks_predicates.
+      default_view_returns_context permissive_checks_predicates nf_forwards fb_forwards.
+
+(* the predicate parameters of add_notfound_view / add_forbidden_view (custom = custom_predicates): all forwarded *)
+Definition directive_preds : list text :=
+  [nm_request_method; nm_request_param; nm_containment; nm_xhr; nm_accept; nm_header; nm_path_info; nm_custom;
+   nm_match_param].
 
 (* [b]: whether a permissive call honours predicates; the property's value is true *)
 Definition spec_params_b (b : bool) : params :=
   mkP [hn_response; hn_exc_info; hn_exception] [hn_exception; hn_exc_info] [hn_exception; hn_exc_info]
       true [] cn_HTTPNotFound cn_Exception cn_HTTPNotFound true cn_Exception
       [cn_IExceptionResponse; cn_WebobWSGIHTTPException]
-      (cn_HTTPNotFound, true) (cn_HTTPForbidden, true) (cn_Exception, true) true b.
+      (cn_HTTPNotFound, true) (cn_HTTPForbidden, true) (cn_Exception, true) true b directive_preds directive_preds.
 Definition spec_params : params := spec_params_b true.
 
 (* ------------------------------------------------------------------ *)
@@ -195,6 +202,16 @@ Definition effective_ctx (P : params) (nm : named) (d : vdecl) : N * bool * bool
   | DForbidden => (named_id nm (fst (p_fb P)), snd (p_fb P), true)
   end.
 
+(* the keyword arguments that reach add_view: the two directives name the arguments they pass on *)
+Definition forwarded_kw (P : params) (d : directive) (kw : kwargs) : kwargs :=
+  match d with
+  | DNotFound => filter (fun e => mem_text (fst e) (p_nf_fw P)) kw
+  | DForbidden => filter (fun e => mem_text (fst e) (p_fb_fw P)) kw
+  | _ => kw
+  end.
+Definition forwarded_args (P : params) (d : directive) (a : view_args) : view_args :=
+  mkArgs (a_req a) (a_ctx a) (a_name a) (forwarded_kw P d (a_kw a)) (a_accept a) (a_secured a) (a_tag a).
+
 Definition with_ctx (a : view_args) (c : N) : view_args :=
   mkArgs (a_req a) c (a_name a) (a_kw a) (a_accept a) (a_secured a) (a_tag a).
 
@@ -204,7 +221,7 @@ Definition opt_list {A} (o : option A) : list A := match o with Some x => [x] | 
    "if not exception_only: register under IViewClassifier; if isexc: register under IExceptionViewClassifier" *)
 Definition regs_of_decl (P : params) (names : list text) (nm : named) (d : vdecl) : list reg :=
   let '(c, xonly, isexc) := effective_ctx P nm d in
-  let a := with_ctx (d_args d) c in
+  let a := with_ctx (forwarded_args P (d_dir d) (d_args d)) c in
   if xonly && negb isexc then []
   else (if xonly then [] else opt_list (reg_of_args names view_classifier a))
        ++ (if isexc then opt_list (reg_of_args names exc_classifier_id a) else []).
@@ -261,9 +278,10 @@ Definition status_of (W : world) (e : N) : N := x_status (find_exc (w_excs W) e)
 Definition add_log (st : state) (ev : event) : state := mkSt (st_attrs st) (st_log st ++ [ev]).
 
 (* default_exceptionresponse_view: "if not isinstance(context, Exception): context = request.exception or context" *)
+Definition cn_truthy : text := [116; 114; 117; 116; 104; 121]%N.     (* (oracle) bool(object) *)
 Definition ctx_returned (W : world) (ctx : N) (a : amap) : N :=
   if isa W cn_Exception ctx then ctx
-  else match aget hn_exception a with Some p => p | None => ctx end.
+  else match aget hn_exception a with Some p => if isa W cn_truthy p then p else ctx | None => ctx end.
 
 (* a (derived) view callable runs: secured_view (skipped through __call_permissive__ when not [sec]), then the body *)
 Definition run_body (P : params) (W : world) (sec deny : bool) (site tag ctx : N) (a : amap)
@@ -303,7 +321,9 @@ Definition call_view_sec (P : params) (R : registry) (sec : bool) (cls : N) (rq 
 (* the request as seen by the exception-view lookup: context = the exception object *)
 Definition exc_request (P : params) (W : world) (ri : rinfo) (e : N) : request :=
   let q := ri_req ri in
-  mkReq (q_method q) (q_params q) (q_headers q) (q_xhr q) (q_matchdict q) (q_auth q) (q_upath q)
+  mkReq (q_method q) (q_params q) (q_headers q) (q_xhr q)
+        (match ri_under ri with URaise _ => None | _ => q_matchdict q end)   (* no route matched yet: matchdict is None *)
+        (q_auth q) (q_upath q)
         [] false (q_regex q) (q_accept_q q) (q_truth q)
         (match ri_under ri with
          | URaise _ => ri_unrouted_sro ri        (* raised above the router: no route has been matched *)
